@@ -23,7 +23,8 @@ from .resume import run_spec, ID_SETS
 # ======================================================================= C08-B
 def gen_plan_c08b(seed, tier, index):
     r = kernel.rng(seed, 'C08B', tier, index, 'plan')
-    mode = 'decode' if r.random() < 0.7 else 'ocr'
+    x = r.random()
+    mode = 'decode' if x < 0.6 else 'ocr' if x < 0.88 else 'layout'
     many = mode == 'ocr' and r.random() < 0.7        # pages whose lines need several OCR batches
     d = gen_decoder_cfg(r, allow_filter=False)
     if r.random() < 0.7:
@@ -45,12 +46,24 @@ def gen_plan_c08b(seed, tier, index):
                 b = r.choice([r.randint(3, 12), r.randint(14, 30), wide, wide, r.randint(30, 70)])
             lines.append({'blocks': b, 'frames': b, 'seed': r.randrange(1 << 30), 'amb': r.choice([0.4, 0.7, 0.8])})
         pages.append({'id': pid, 'ext': '.png', 'lines': lines, 'regions': r.choice([1, 1, 2])})
+        if mode == 'ocr' and r.random() < 0.3:
+            pages[-1]['xml_style'] = 'transkribus'      # importer guesses heights (global numpy RNG)
+    if mode == 'layout':
+        # same-size pages whose text regions come from input PAGE XML with different polygons
+        nl, nb = r.randint(2, 4), r.randint(12, 24)
+        for p in pages:
+            p['lines'] = [{'blocks': nb, 'frames': nb, 'seed': r.randrange(1 << 30), 'amb': 0.3} for _ in range(nl)]
+            p['region_poly'] = r.choice(['rect', 'rect', 'penta', 'penta2', 'tri_ul', 'tri_lr'])
     plan = {'world': 'pf8', 'mode': mode, 'with_images': False, 'cfg': cfg, 'pages': pages,
             'outputs': ['xml'] + (['alto'] if r.random() < 0.4 else []), 'procs': 1,
             'clock': {'inc': [0.001, 0.02], 'jumps': {}}}
+    if mode == 'layout':
+        plan['regions_from_xml'] = True
+        plan['outputs'] = ['xml'] + (['lines'] if r.random() < 0.5 else [])
+        plan['cfg'].pop('decoder')
     scen = []
     for _ in range(r.randint(1, 3)):
-        kind = r.choice(['seq', 'pool', 'pool', 'crash']) if mode == 'decode' else r.choice(['seq', 'crash'])
+        kind = r.choice(['seq', 'pool', 'pool', 'crash']) if mode in ('decode', 'layout') else r.choice(['seq', 'crash'])
         if big and not scen:
             kind = 'pool'
         procs = (2 if big else r.choice([2, 3])) if kind == 'pool' else 1
@@ -76,7 +89,7 @@ def execute_c08b(plan):
     res = kernel.RunResult()
     log = kernel.EventLog()
     world = PfWorld(plan, res, log)
-    d = plan['cfg']['decoder']
+    d = plan['cfg'].get('decoder') or {}
     try:
         world.setup_inputs()
         world.install()
